@@ -445,8 +445,14 @@ struct Exec {
             if (payload.isEmpty()) {
                 return false;
             }
-            const auto bit = rng() % (quint64(payload.size()) * 8);
+            const auto nbits = quint64(payload.size()) * 8;
+            auto bit = rng() % nbits;
             payload[int(bit / 8)] = char(payload[int(bit / 8)] ^ (1 << (bit % 8)));
+            if (payload == blockBytes(h.blk)) {
+                // a second flip of the same bit would restore the block: alter another bit instead
+                bit = (bit + 1) % nbits;
+                payload[int(bit / 8)] = char(payload[int(bit / 8)] ^ (1 << (bit % 8)));
+            }
             while (!data.firstChild().isNull()) {
                 data.removeChild(data.firstChild());
             }
